@@ -201,9 +201,13 @@ func (w *world) exec(op []string) []string {
 		} else {
 			n, err = w.socks[k].WriteTo(data, dst)
 		}
-		// the caller may reuse its buffer as soon as the write has returned
+		// the caller may reuse its buffer - and the address value - as soon as the write has returned
 		for i := range data {
 			data[i] ^= 0xA5
+		}
+		dst.Port ^= 0x0F0F
+		for i := range dst.IP {
+			dst.IP[i] ^= 0x5A
 		}
 		if err != nil || n != len(data) {
 			return []string{"1"}
